@@ -47,9 +47,10 @@ Definition gsm_encode (errors : errmode) (text : list Z) : res (list Z) :=
 
 (* GSM7BitCodec._decode_char: (char or '' , escaped) *)
 Definition decode_char (code : Z) (escaped : bool) : option Z * bool :=
-  if code =? ESCAPE then (None, true)
-  else if escaped then
+  if escaped then
+    (* any code without an entry in the extension table yields the placeholder - also the escape code itself *)
     (Some (match lookup code gsm_extended_decode_map with Some c => c | None => NO_BREAK_SPACE end), false)
+  else if code =? ESCAPE then (None, true)
   else (lookup code gsm_basic_decode_map, false).
 
 (* the for loop of GSM7BitCodec.decode, then the trailing-escape epilogue *)
